@@ -18,6 +18,7 @@ from .. import rig as R, ref, gen, env
 from ..orch import h
 
 ID = "C19"
+TECHNIQUE = 'runtime monitoring - robustness probes after hostile frames / validly signed hostile events: handler must not raise, same connection and neighbours still served, no registry or task leak; a peer that stops reading; wedged-relay watchdog'
 LEVEL = "exploration"
 CRASH_IS_VIOLATION = True
 RULE = (
